@@ -5,6 +5,7 @@ import (
 	"bytes"
 	"crypto/cipher"
 	"encoding/binary"
+	"slices"
 )
 
 func GoodCopyOut(in []byte) []byte {
@@ -99,4 +100,22 @@ func GoodAppendCappedLen(in, tag []byte) []byte {
 
 func BadAppendCappedWrong(in, tag []byte) []byte {
 	return append(in[:2:len(in)], tag...)
+}
+
+// BadInsertInPlace: slices.Insert shifts inside the caller's backing array when it has spare capacity.
+func BadInsertInPlace(sig []byte, missing int) []byte {
+	return slices.Insert(sig, 0, make([]byte, missing)...)
+}
+
+// BadDeleteInPlace: slices.Delete shifts the tail down inside the caller's array.
+func BadDeleteInPlace(in []byte) []byte { return slices.Delete(in, 0, 1) }
+
+// GoodInsertClipped: with cap == len the insertion reallocates.
+func GoodInsertClipped(sig []byte, missing int) []byte {
+	return slices.Insert(slices.Clip(sig), 0, make([]byte, missing)...)
+}
+
+// GoodInsertIntoCopy: edits a private copy.
+func GoodInsertIntoCopy(sig []byte, missing int) []byte {
+	return slices.Insert(slices.Clone(sig), 0, make([]byte, missing)...)
 }
